@@ -707,6 +707,68 @@ def prototype_order(ctx, prog, rule):
 # ----------------------------------------------------------------------------------------
 # namespace / scoping rules (C18)
 
+def child_tags(prog, t):
+    """tags of the child-element lookups inside a value tree: every `find(<iterator>, |n| n.has_tag_name(TAG))`, with a
+    captured TAG resolved to the capturing function's value"""
+    import names as nm
+    out = []
+    for x in leaves(t):
+        if x[0] == "agg" and x[1][0] == "closure" and x[1][1] in prog.fns:
+            g = prog.fns[x[1][1]]
+            Rg = Resolver(g)
+            cap = nm._capture_index(g)
+            for bi, tt in g.calls(lambda c, t: c.endswith("has_tag_name")):
+                a = strip(Rg.operand(tt["args"][1]))
+                if a[0] == "field" and strip(a[1]) == ("param", 1) and a[2] in cap and cap[a[2]] < len(x[2]):
+                    a = strip(x[2][cap[a[2]]])
+                out.append(a[2] if a[0] == "const" and isinstance(a[2], str) else None)
+    return out
+
+
+def _filter_predicate(pf):
+    """closure `|n| n.has_tag_name("vectorChild") && n.attribute("type") == Some("Structure")`: can it return true only
+    when both tests hold?"""
+    R = Resolver(pf)
+    tag_edges, type_edges = [], []
+    for bi, t in pf.calls(lambda c, t: c.endswith("has_tag_name")):
+        a = strip(R.operand(t["args"][1]))
+        if a[0] == "const" and a[2] == "vectorChild":
+            tag_edges += [(sw, tr) for sw, tr, fa in bool_switches(pf, bi)]
+            tag_call = bi
+    type_calls = []
+    for bi, t in pf.calls(lambda c, t: c.rsplit("::", 1)[-1] in ("eq", "ne")):
+        txt = tree_str(strip_deep(R.operand(t["args"][0]))) + tree_str(strip_deep(R.operand(t["args"][1])))
+        if "'type'" in txt and "'Structure'" in txt and callee_of(t).endswith("eq"):
+            type_calls.append(bi)
+    res = {"tag": False, "type": False}
+    if not tag_edges or not type_calls:
+        return res
+    # every definition of the result is the constant false, or the type comparison evaluated behind the tag test
+    behind_tag = lambda b: b not in reach(cfg_without_edges(pf, tag_edges), [0])
+    ok_tag = ok_type = True
+    for kind, payload, bi, si, place in pf.defs().get(0, []):
+        if place["proj"] or bi not in pf.cfg():
+            continue
+        if kind == "call":
+            ok_type = ok_type and bi in type_calls
+            ok_tag = ok_tag and behind_tag(bi)
+            continue
+        v = strip(R.rvalue(payload))
+        if v[0] == "const" and v[2] == 0:
+            continue
+        if v[0] == "call" and len(v) > 3 and v[3] in type_calls:
+            ok_tag = ok_tag and behind_tag(v[3])
+            continue
+        if v[0] == "const" and v[2] == 1:
+            ok_tag = ok_tag and behind_tag(bi)
+            te = [(sw, tr) for tc in type_calls for sw, tr, fa in bool_switches(pf, tc)]
+            ok_type = ok_type and bool(te) and bi not in reach(cfg_without_edges(pf, te), [0])
+            continue
+        ok_tag = ok_type = False
+    res["tag"], res["type"] = ok_tag, ok_type
+    return res
+
+
 def lookup_sites(prog):
     """every has_tag_name / descendants use in the reader: list of dict(fn, tag, axis, ns_aware)"""
     out = []
@@ -714,10 +776,23 @@ def lookup_sites(prog):
         R = Resolver(f)
         for bi, t in f.calls(lambda c, t: c.endswith("has_tag_name")):
             a = strip(R.operand(t["args"][1]))
+            owner = p.split("::{closure")[0]
+            if f.kind == "Closure" and (owner not in prog.fns or not (a[0] == "const" and isinstance(a[2], str))):
+                # a tag captured from the enclosing function; when that function is a helper that was inlined into
+                # its callers, the lookup belongs to the caller and the tag is the caller's constant
+                import panic_rules
+                ofn, tt = panic_rules.translate_closure_tree(prog, f, R.operand(t["args"][1]))
+                tt = strip(tt)
+                if owner not in prog.fns and ofn is not f:
+                    owner = ofn.path.split("::{closure")[0]
+                    if not (a[0] == "const" and isinstance(a[2], str)):
+                        a = tt
+                elif tt[0] == "const" and isinstance(tt[2], str):
+                    a = tt
             tag = a[2] if a[0] == "const" and isinstance(a[2], str) else ("<%s>" % tree_str(a))
             gen = [g for g in t["callee"].get("args", []) if not g.startswith("'")]
             ns_aware = not any(g.strip() == "&str" or g.strip().endswith("&str") for g in gen)
-            out.append(dict(fn=p, owner=p.split("::{closure")[0], tag=tag, ns_aware=ns_aware, block=bi, line=f.file_line(bi)))
+            out.append(dict(fn=p, owner=owner, tag=tag, ns_aware=ns_aware, block=bi, line=f.file_line(bi)))
     return out
 
 
@@ -795,6 +870,28 @@ def namespace_rules(ctx, prog, rule_ns, rule_axis, rule_proto):
                 tests["type"] = calls[0] not in reach(cfg_without_edges(g, [(be[0], good)]), [0])
         # children() axis for the entries
         axis = any("children" in tree_str(Rg.operand(t["args"][0])) for bi, t in g.calls(lambda c, t: c == callee))
+        if not calls:
+            # functional spelling: children().filter(|n| tag && type).map(|n| from_node(&n)).collect()
+            import panic_rules
+            cctx = panic_rules.closure_context(prog)
+            for cp, cf in prog.fns.items():
+                if cf.kind != "Closure" or cp not in cctx or not any(True for _ in cf.calls(lambda c, t: c == callee)):
+                    continue
+                owner, ops, recv = cctx[cp]
+                if owner.path != g.path or recv is None:
+                    continue
+                rs = strip(recv)
+                if not (rs[0] == "call" and rs[1].rsplit("::", 1)[-1] == "filter" and len(rs[2]) == 2):
+                    continue
+                axis = "children" in tree_str(rs[2][0]) and "descendants" not in tree_str(rs[2][0])
+                pc = strip(rs[2][1])
+                pf = prog.fns.get(pc[1][1]) if pc[0] == "agg" and pc[1][0] == "closure" else None
+                if pf is None:
+                    continue
+                ctx.fn_seen(pf)
+                tests = _filter_predicate(pf)
+                calls = [0]
+
         ctx.ob(rule_proto, "vector-children/%s" % short(path), len(calls) == 1 and all(tests.values()) and axis,
                "%s turns a child into an entry only when has_tag_name(\"vectorChild\") (%s) and type == \"Structure\" (%s), iterating children() (%s)" % (short(path), tests["tag"], tests["type"], axis))
     # extensions are the prefixed namespace declarations of the root element
